@@ -176,6 +176,13 @@ def wl_bloom(ctx, rng, case):
             inter = f.intersection(g)
             u0 = inter.union(cls(est, rate)) if inter is not None else None  # the same bits, element count re-estimated (0 when few bits are set)
             derived = [("f.intersection(g)", inter, AND), ("g.union(f)", g.union(f), OR)]
+            # both operands ON DISK (their storage is the mapped file: cells followed by the footer)
+            pf, pg = sc.path("df"), sc.path("dg")
+            f.export(pf)
+            g.export(pg)
+            df, dg = P.BloomFilterOnDisk(pf), P.BloomFilterOnDisk(pg)
+            derived += [("ondisk_f.union(ondisk_g)", df.union(dg), OR), ("ondisk_g.intersection(ondisk_f)", dg.intersection(df), AND), ("ondisk_f.union(g)", df.union(g), OR)]
+            ondisk_open = [df, dg]
             if u0 is not None and u0.elements_added >= 0:
                 derived += [("(f&g | empty)", u0, AND), ("(f&g | empty).intersection(f)", u0.intersection(f), AND), ("g.intersection(f&g | empty)", g.intersection(u0), AND),
                             ("(f&g | empty).union(g)", u0.union(g), bytes(mg.cells))]
@@ -200,7 +207,10 @@ def wl_bloom(ctx, rng, case):
                 for key, a in zip(probe, ans2[7:]):
                     if int(a) != int(r.check(key)):
                         ctx.fail(f"C reference reader answers differently from the library for the file exported by {name}", key=key, c=int(a), library=int(r.check(key)))
+                ctx.check(len(rd) == (m + 7) // 8 + 20 == r.export_size(), f"the file exported by {name} has {len(rd)} bytes, the layout requires {(m + 7) // 8 + 20}")
                 ctx.count("programs.derived_files_checked")
+            for o in ondisk_open:
+                o.close()
         # ---- hex form = cells, then the footer big-endian
         hx = f.export_hex()
         want_hex = data[:-20].hex() + refimpl.BLOOM_FOOTER_BE.pack(st["est"], st["added"], st["fpr32"]).hex()
